@@ -12,8 +12,8 @@ func runReadCases(ctx *runCtx, cases []*ReadCase, kindOf func(*ReadCase) string)
 	// the ground truth of these generators does not account for the read limit (C08 does): a case whose
 	// expected messages exceed the default limit of 32768 bytes runs with the limit lifted
 	for _, c := range cases {
-		if c.Limit != nil {
-			continue
+		if c.Limit != nil || c.Exp.WantClose == 1009 || c.Exp.MaxPartial > 0 {
+			continue // an explicit limit, or a case that is about the limit itself (C08)
 		}
 		big := len(c.Exp.PartialOf)/2 > 32768
 		for _, m := range c.Exp.Msgs {
